@@ -571,4 +571,34 @@ theorem mkVars_frame (t : Nat) (xs : List R) :
     · exact Or.inr rfl
     · exact h3 r hr
 
+/-! ### `Sum` is repeated addition -/
+
+/-- one round of `Sum for Record` is `&total + &next` (in any state: same value up to the order
+    of the two summands, same tape entry, same panic) -/
+theorem sumStep_eq_add (total next : Rec R) (w : World R) :
+    Rec.sumStep total next w = total.add next w := by
+  unfold Rec.sumStep Rec.add
+  cases ht : total.history <;> cases hn : next.history <;>
+    simp [Rec.sameList, ht, hn, Rec.addNum, Fn.Addition.function, Fn.Addition.dx, Fn.Addition.dy,
+      add_comm]
+
+/-- adding the items one after another to a running total with `+` -/
+def addLoop : List (Rec R) → Rec R → World R → World R × Outcome (Rec R)
+  | [], total, w => (w, .ok total)
+  | next :: rest, total, w =>
+    match total.add next w with
+    | .ok (total', w') => addLoop rest total' w'
+    | .panic k => (w, .panic k)
+
+theorem sumLoop_eq_addLoop (items : List (Rec R)) :
+    ∀ (total : Rec R) (w : World R), Rec.sumLoop items total w = addLoop items total w := by
+  induction items with
+  | nil => intro total w; rfl
+  | cons x xs ih =>
+    intro total w
+    simp only [Rec.sumLoop, addLoop, sumStep_eq_add]
+    cases total.add x w with
+    | panic k => rfl
+    | ok res => obtain ⟨t', w'⟩ := res; exact ih t' w'
+
 end EasyMl
